@@ -360,6 +360,38 @@ def run(tier, seed):
                 vandalise(res, rng)
         if h == 0:
             chk.sample({"history": hist[:12]})
+    # pooled request buffers: the binary fields of a credential record are bytearrays which the caller refills as soon as the call has returned - results handed out
+    # earlier must not read from them (raw_id excepted: `credential.raw_id` is echoed as `credential_id`, the caller's own object)
+    from webauthn.helpers.structs import AuthenticationCredential as _AC, AuthenticatorAssertionResponse as _AAR, RegistrationCredential as _RC, AuthenticatorAttestationResponse as _ATR
+    import webauthn as _w
+    for spec in pool:
+        key, kind, pol, obj = spec
+        if kind not in ("auth", "reg") or not key.endswith(("/ok", "/None")):
+            continue
+        bufs = []
+        def pooled(b):
+            bufs.append(bytearray(b))
+            return bufs[-1]
+        try:
+            with impl.substituted(pol.substitute if kind == "reg" else None, pol.now if kind == "reg" else T0):
+                if kind == "auth":
+                    a = obj
+                    cred = _AC(id=a.id_text, raw_id=a.cred_id, response=_AAR(client_data_json=pooled(a.cdj), authenticator_data=pooled(a.ad), signature=pooled(a.sig), user_handle=a.user_handle))
+                    res = _w.verify_authentication_response(credential=cred, **pol.kwargs())
+                else:
+                    r_ = obj
+                    cred = _RC(id=r_.id_text, raw_id=r_.cred_id, response=_ATR(client_data_json=pooled(r_.cdj), attestation_object=pooled(r_.att_obj)))
+                    res = _w.verify_registration_response(credential=cred, **pol.kwargs())
+        except Exception:
+            continue
+        before = impl.dump(res)
+        for ba in bufs:
+            ba[:] = b"\xee" * len(ba)
+        after = impl.dump(res)
+        chk.evals += 1
+        if before != after:
+            chk.violation(f"the result of {key} changed when the caller refilled the buffers it had passed in (the result shares memory with the caller's input)", f"result-aliases-input {key.split('/')[0]}/{key.split('/')[1]}",
+                          {"call": key, "history": "verify with bytearray fields; overwrite those bytearrays; read the result again", "before": before[:500], "after": after[:500]})
     # 16 threads, shuffled copies of the same call set (fixed clock and anchors for all)
     calls = [s for s in pool if s[1] in ("auth", "reg")]
     errors = []
